@@ -67,7 +67,52 @@ theorem xor_signs_le_dual (D : X → Y → ℝ) (a : X → ℝ) (b : Y → ℝ) 
     ∑ x, ∑ y, D x y * (s x * t y) ≤ (∑ x, a x + ∑ y, b y) / 2 :=
   signs_le_dual D a b s t hs ht hZ
 
+/-- **Level-1 NPA moment matrices give the same optimum (±1-observable basis).**  The level-1 moment matrix `R` of
+the converted game in the basis of ±1 observables lives on `{1} ⊕ X ⊕ Y`, is positive semidefinite with unit
+diagonal, and the winning probability is `1/2 + 1/2 Σ D[x,y] R[x,y]` (`xor_win_eq_bias`).  (i) Every such `R` obeys
+every dual bound of the Tsirelson program; (ii) every feasible `Γ` of the Tsirelson program extends to such an `R`
+with the same correlations.  Hence both programs have the same optimum. -/
+theorem npa1_eq_tsirelson (D : X → Y → ℝ) (a : X → ℝ) (b : Y → ℝ) :
+    (∀ R : Matrix (Unit ⊕ (X ⊕ Y)) (Unit ⊕ (X ⊕ Y)) ℂ, IsMoment R → (tsirelsonDual D a b).PosSemidef →
+      ∑ x, ∑ y, D x y * (R (.inr (.inl x)) (.inr (.inr y))).re ≤ (∑ x, a x + ∑ y, b y) / 2) ∧
+    (∀ Γ : Matrix (X ⊕ Y) (X ⊕ Y) ℂ, IsMoment Γ →
+      ∃ R : Matrix (Unit ⊕ (X ⊕ Y)) (Unit ⊕ (X ⊕ Y)) ℂ, IsMoment R ∧
+        ∀ x y, R (.inr (.inl x)) (.inr (.inr y)) = Γ (.inl x) (.inr y)) :=
+  ⟨fun R hR hZ => npa1_le_dual' D a b R hR hZ,
+    fun Γ hΓ => ⟨_, isMoment_extend Γ hΓ, fun _ _ => rfl⟩⟩
+
+/-- **Level-1 NPA matrix in toqito's projector basis.**  toqito's level-1 matrix `R` is indexed by the words
+`1, A_x^0, B_y^0` (projectors on outcome 0): positive semidefinite, `R[1,1] = 1`, `R[P,P] = R[1,P]`, and
+`R[A_x^0, B_y^0] = p(0,0|x,y)`, `R[1, A_x^0] = p_A(0|x)`, `R[1, B_y^0] = p_B(0|y)`.  The correlators
+`E[x,y] = 4 p(0,0|x,y) − 2 p_A(0|x) − 2 p_B(0|y) + 1` of every such matrix obey every dual bound of the Tsirelson
+program: the level-1 NPA value of the converted game is at most `1/2 + 1/2 · (Σa + Σb)/2`. -/
+theorem npa1_projector_le_dual (D : X → Y → ℝ) (a : X → ℝ) (b : Y → ℝ)
+    (R : Matrix (Unit ⊕ (X ⊕ Y)) (Unit ⊕ (X ⊕ Y)) ℂ) (hR : R.PosSemidef) (h1 : R (.inl ()) (.inl ()) = 1)
+    (hp : ∀ i, R (.inr i) (.inr i) = R (.inl ()) (.inr i)) (hZ : (tsirelsonDual D a b).PosSemidef) :
+    ∑ x, ∑ y, D x y * (4 * R (.inr (.inl x)) (.inr (.inr y)) - 2 * R (.inr (.inl x)) (.inl ())
+        - 2 * R (.inl ()) (.inr (.inr y)) + 1).re ≤ (∑ x, a x + ∑ y, b y) / 2 := by
+  have h := npa1_le_dual' D a b _ (isMoment_basisChange R hR h1 hp) hZ
+  simp only [basisChange_entry, h1] at h
+  exact h
+
 end Duality
+
+/-! ## The mirror data of `quantum_value` denote the mathematical objects -/
+
+/-- **Cost matrix.**  For a 0/1 predicate, `d_mat[x,y] = prob[x,y] · (-1)^pred[x,y]` is `+prob[x,y]` where the
+players must answer equal bits and `−prob[x,y]` where they must answer different bits. -/
+theorem dMat_sign (prob : Nat → Nat → Rat) (pred : Nat → Nat → Nat) (x y : Nat) (hf : pred x y < 2) :
+    dMat prob pred x y = if pred x y = 0 then prob x y else -prob x y := by
+  have h : pred x y = 0 ∨ pred x y = 1 := by omega
+  rcases h with h | h <;> simp [dMat, h, negOnePow_zero, negOnePow_one]
+
+/-- **Constraint matrix.**  The matrix assembled by `cvxpy.bmat([[diag(u), -D], [-Dᵀ, diag(v)]])` (rows and columns
+`0 … m-1` Alice, `m … m+n-1` Bob) is, up to the canonical identification `Fin m ⊕ Fin n ≃ Fin (m+n)`, the block
+matrix `tsirelsonDual D u v` of the weak-duality theorem. -/
+theorem xor_dual_matrix_mirror {m n : Nat} (D : Nat → Nat → Rat) (u v : Nat → Rat) :
+    (xorDualMat m n D u v).toM.submatrix finSumFinEquiv finSumFinEquiv
+      = tsirelsonDual (castD D) (castV (m := m) u) (castV (m := n) v) :=
+  toM_xorDualMat_submatrix D u v
 
 /-! ## Verified certificate checkers -/
 
@@ -320,6 +365,31 @@ example : (∀ x y, x < 2 → y < 2 → chshPred x y < 2) ∧ totalProb 2 2 chsh
   refine ⟨fun x y hx hy => ?_, by decide +kernel⟩
   have : x * y ≤ 1 * 1 := Nat.mul_le_mul (by omega) (by omega)
   simp only [chshPred]; omega
+
+/-! CHSH expression `⟨A₀B₀⟩ + ⟨A₀B₁⟩ + ⟨A₁B₀⟩ − ⟨A₁B₁⟩`: the maximally entangled state with the rational
+observables `A₀ = Z⊗1`, `A₁ = X⊗1`, `B₀ = 1⊗(3Z+4X)/5`, `B₁ = 1⊗(3Z−4X)/5` is accepted as a strategy of value
+`14/5 > 2`; the dual point `u = v = (0, 3/2, 3/2)`, `t = 0` certifies `≤ 3`. -/
+
+private def chshJ : Nat → Nat → Rat := fun x y => if x = 1 ∧ y = 1 then -1 else 1
+private def zero1 : Nat → Rat := fun _ => 0
+private def r6 (rows : Array (Array Rat)) : EMat 6 6 := EMat.ofRows (rows.map fun r => r.map QI.ofRat) 6 6
+
+private def exA : Fin 2 → EMat 4 4 := fun x =>
+  if x.val = 0 then r4 #[#[1, 0, 0, 0], #[0, 1, 0, 0], #[0, 0, -1, 0], #[0, 0, 0, -1]]
+  else r4 #[#[0, 0, 1, 0], #[0, 0, 0, 1], #[1, 0, 0, 0], #[0, 1, 0, 0]]
+private def exB : Fin 2 → EMat 4 4 := fun y =>
+  if y.val = 0 then r4 #[#[3/5, 4/5, 0, 0], #[4/5, -3/5, 0, 0], #[0, 0, 3/5, 4/5], #[0, 0, 4/5, -3/5]]
+  else r4 #[#[3/5, -4/5, 0, 0], #[-4/5, -3/5, 0, 0], #[0, 0, 3/5, -4/5], #[0, 0, -4/5, -3/5]]
+
+example : checkBellStrategy 2 2 chshJ zero1 zero1
+    (r4 #[#[1/2, 0, 0, 1/2], #[0, 0, 0, 0], #[0, 0, 0, 0], #[1/2, 0, 0, 1/2]]) (EMat.zero : EMat 4 1) exA exB
+    = some (14 / 5) := by decide +kernel
+
+example : checkBellDual 2 2 chshJ zero1 zero1 0 (fun i => if i = 0 then 0 else 3 / 2) (fun i => if i = 0 then 0 else 3 / 2)
+    (r6 #[#[0, 0, 0, 0, 0, 0], #[0, 6/5, 0, 0, 0, 0], #[0, 0, 6/5, 0, 0, 0], #[0, 0, 0, 0, 0, 0],
+      #[0, -5/6, -5/6, 0, 0, 0], #[0, -5/6, 5/6, 0, 0, 0]]) = some 3 := by decide +kernel
+
+example : bellDetMax 2 2 chshJ zero1 zero1 = 2 := by decide +kernel
 
 end Examples
 
